@@ -47,6 +47,7 @@ type RunReq struct {
 	Procs      int                        `json:"procs"`  // GOMAXPROCS for this run
 	SchedOff   int64                      `json:"sched_offset"`
 	WantTypes  bool                       `json:"want_types"`
+	EchoModule string                     `json:"echo_module"` // if set: the text of every module the request does not define
 }
 
 type Invocation struct {
@@ -105,6 +106,10 @@ type anHost struct {
 
 func (h anHost) ResolveCodeModule(moduleName string) (string, bool, error) {
 	code, ok := h.st.req.Modules[moduleName]
+	if !ok && h.st.req.EchoModule != "" {
+		// a host that answers every module name with the same text (the text may import itself, by any name)
+		return h.st.req.EchoModule, true, nil
+	}
 	return code, ok, nil
 }
 
